@@ -139,6 +139,7 @@ PROPS = {
                         "live runs use errno/allow/log actions only (a killed target is indistinguishable from a failing one at the sandbox's exit status)"],
     },
     "C19": {
+        "wasm_probe": True,
         "lean": ["Seccomp.Proofs.C19"],
         # one pass over the facts; thorough additionally runs go build + go vet for every target (scratch GOCACHE)
         "streams": [{"stream": "consts", "profile": "targets", "quick": 1, "thorough": 1, "timeout": 3000}],
